@@ -308,6 +308,57 @@ theorem flush_wins (k : Kcp) (full : Bool) (now : U32) (h : k.probe &&& u32 IKCP
     obtain ⟨post, hpost⟩ := hg.keeps hw.1
     exact ⟨_, post, by rw [flush_wire, hpost]⟩
 
+theorem send_bit (x : U32) : (x ||| u32 IKCP_ASK_SEND) &&& u32 IKCP_ASK_SEND ≠ 0 := by
+  simp only [u32, IKCP_ASK_SEND]
+  rw [show BitVec.ofNat 32 1 = BitVec.twoPow 32 0 from by decide, BitVec.and_twoPow, BitVec.getLsbD_or]
+  rw [show (BitVec.twoPow 32 0).getLsbD 0 = true from by decide, Bool.or_true]
+  simp only [↓reduceIte]
+  decide
+
+/-- the probe timer fields after a flush are those written by phase 2 -/
+theorem flush_probe_timer (k : Kcp) (full : Bool) (now : U32) :
+    (flush k full now).k.probe_wait = (probePhase { k with acklist := [] } now).probe_wait ∧
+    (flush k full now).k.ts_probe = (probePhase { k with acklist := [] } now).ts_probe := by
+  rw [flush_eq]
+  simp only []
+  obtain ⟨ss, cw, inc, h6⟩ := phase6_frame (flF5 k full now).k (flX k full now).change (flX k full now).lost
+    (effWnd (flF3 k now).k) (resentOf (flF4 k now).k)
+  rw [h6]
+  have hx := (ext_X k full now).k
+  unfold flF5
+  simp only []
+  rw [hx, flF4_k]
+  exact ⟨rfl, rfl⟩
+
+/-- a due probe timer puts a WASK header into the same flush -/
+theorem flush_wask (k : Kcp) (full : Bool) (now : U32) (h0 : k.rmt_wnd = 0) (h1 : k.probe_wait ≠ 0)
+    (h2 : itimediff now k.ts_probe ≥ 0) :
+    (flush k full now).k.probe_wait = nextProbeWait k.probe_wait ∧
+    (flush k full now).k.ts_probe = now + nextProbeWait k.probe_wait ∧
+    ((flush k full now).panic = false → ∃ pre post, (flush k full now).outs.flatten =
+      pre ++ encodeHdr k.conv (BitVec.ofNat 8 IKCP_CMD_WASK) 0 (wndUnused k) (flAck k).sc.ts (flAck k).sc.sn k.rcv_nxt 0
+        ++ post) := by
+  have hpp : probePhase { k with acklist := [] } now =
+      { k with acklist := [], probe_wait := nextProbeWait k.probe_wait, ts_probe := now + nextProbeWait k.probe_wait,
+               probe := k.probe ||| u32 IKCP_ASK_SEND } := by
+    unfold probePhase
+    rw [if_pos h0, if_neg h1, if_pos h2]
+  have hf := flush_probe_timer k full now
+  refine ⟨by rw [hf.1, hpp], by rw [hf.2, hpp], ?_⟩
+  intro hp
+  rw [flush_panic] at hp
+  have hg := (grow_F3b k now).trans (grow_F3b_end k full now)
+  have hp3 := hg.noPanic hp
+  have hconv : (flF2 k now).k.conv = k.conv := by rw [flF2_k, hpp]
+  have hprobe : (flF2 k now).k.probe &&& u32 IKCP_ASK_SEND ≠ 0 := by
+    rw [flF2_k, hpp]; exact send_bit _
+  unfold flF3a at hp3 hg
+  rw [if_pos hprobe, hconv] at hp3 hg
+  have hw := Fl.putHdr_wire _ _ hp3
+  rw [Fl.makeSpace_wire] at hw
+  obtain ⟨post, hpost⟩ := hg.keeps hw.1
+  exact ⟨_, post, by rw [flush_wire, hpost]⟩
+
 /-! ### throttling -/
 
 /-- with a zero remote window the effective window of phase 4 is zero -/
